@@ -75,6 +75,8 @@ structure Out where
   tree : Tree
   log : List Ev := []
   val : Option Val := none
+  /-- the leaf reached, when the value access itself was attempted -/
+  leaf : Option LeafKind := none
   deriving Inhabited
 
 /-- the failing states of the transparent wrappers, per operation (impls.rs 190-236, 671-1297) -/
@@ -114,6 +116,7 @@ def Attrs.getter (a : Attrs) : Op → Option (Ev × Option String)
 /-- leaf.rs: value access after the keys were finalized -/
 def leafOp (io : Io) (op : Op) (k : LeafKind) (v : Val) : Out :=
   let t := Tree.leaf k v
+  (fun (o : Out) => { o with leaf := some k }) <|
   match k with
   | .deny _ => { res := .trav (.access 0 "Denied"), tree := t }
   | .leaf _ =>
@@ -139,6 +142,23 @@ def leafOp (io : Io) (op : Op) (k : LeafKind) (v : Val) : Out :=
         | none => { res := .trav (.invalid 0 "Could not convert"), tree := t }
       | _ => { res := .inner 0, tree := t }
     | .refAny | .mutAny => { res := .trav (.access 0 "No Any access for StrLeaf"), tree := t }
+
+/-- the `validate` callback of a field: only on deserializing writes, only after the child
+returned `Ok(depth)`; receives that depth, may replace it or fail with `Invalid(0, msg)` -/
+def applyValidator (a : Attrs) (op : Op) (o : Out) : Out :=
+  match op, o.res, a.validate with
+  | .de, .ok d, some v =>
+    let log := o.log ++ [Ev.validate a.id d]
+    match v with
+    | .keep => { o with log := log }
+    | .replace k => { o with res := .ok k, log := log }
+    | .err msg => { o with res := .trav (.invalid 0 msg), log := log }
+  | _, _, _ => o
+
+/-- the call logged for a custom accessor -/
+def getterLog : Option (Ev × Option String) → List Ev
+  | some (ev, _) => [ev]
+  | none => []
 
 /-- by-key access.  Result depth is counted bottom-up exactly as the code does:
 `0` at the deciding step, `+1` per non-flattened level on the way up. -/
@@ -189,22 +209,11 @@ where
       match a.deny op with
       | some msg => ({ res := .trav (.access 0 msg), tree := t }, (a, t) :: rest)
       | none =>
-        let pre : List Ev := match a.getter op with
-          | some (ev, _) => [ev]
-          | none => []
         match a.getter op with
-        | some (_, some msg) => ({ res := .trav (.access 0 msg), tree := t, log := pre }, (a, t) :: rest)
-        | _ =>
+        | some (ev, some msg) => ({ res := .trav (.access 0 msg), tree := t, log := [ev] }, (a, t) :: rest)
+        | g =>
           let o := t.walk io op ks
-          let o := { o with log := pre ++ o.log }
-          let o := match op, o.res, a.validate with
-            | .de, .ok d, some v =>
-              let log := o.log ++ [Ev.validate a.id d]
-              match v with
-              | .keep => { o with log := log }
-              | .replace k => { o with res := .ok k, log := log }
-              | .err msg => { o with res := .trav (.invalid 0 msg), log := log }
-            | _, _, _ => o
+          let o := applyValidator a op { o with log := getterLog g ++ o.log }
           (o, (a, o.tree) :: rest)
     | f :: rest, i + 1, ks =>
       let r := goFld rest i ks
